@@ -156,9 +156,45 @@ def check_inputs_first(ctx: Ctx):
         src = norm(comp[0].generators[0].iter)
     elif isinstance(st, ast.For):
         src = norm(st.iter)
-    isym = [n for n in body[:alloc] if isinstance(n, ast.Assign) and norm(n.targets[0]) == "self.input_symbols"]
-    ok = src == "self.input_symbols" and len(isym) == 1 and norm(isym[0].value).replace(" ", "") == "[arg_bforarginargsforarg_binarg.bitvec]"
-    ctx.check(ok, "MP-inputs-first", ic, "one qubit per argument bit, in argument then bit order", "[arg_b for arg in args for arg_b in arg.bitvec]", f"input qubits are allocated from `{src}` / `{norm(isym[0].value) if isym else '?'}`", st)
+    # where the allocated names come from: a flattening of the arguments' bit vectors, possibly through
+    # self.input_symbols and/or a local
+    if src is None:
+        raise AnchorError(ic.short, "the input allocation is neither a loop nor a comprehension")
+    defs = {}
+    for n in body[:alloc]:
+        if isinstance(n, ast.Assign) and len(n.targets) == 1:
+            defs.setdefault(norm(n.targets[0]), []).append(n.value)
+    cur, hops = (comp[0].generators[0].iter if comp else st.iter), 0
+    par_alloc = 0
+    while hops < 6:
+        hops += 1
+        cur, p_ = q.reversal_parity(cur)
+        par_alloc ^= p_
+        if norm(cur) in defs and len(defs[norm(cur)]) == 1:
+            cur = defs[norm(cur)][0]
+            continue
+        break
+    ff = q.flatten_form(cur)
+    if ff is None and isinstance(st, ast.For) and isinstance(st.target, ast.Name) and len(st.body) == 1 and isinstance(st.body[0], ast.For) and isinstance(st.body[0].target, ast.Name):
+        # `for arg in args: for b in arg.bitvec: qc.add_qubit(b)`
+        inner_l = st.body[0]
+        calls_ = [c for c in q.calls(inner_l) if dotted(c.func) == "qc.add_qubit"]
+        if len(calls_) == 1 and calls_[0].args and norm(calls_[0].args[0]) == inner_l.target.id and len(inner_l.body) == 1:
+            o_, p0_ = q.reversal_parity(st.iter)
+            i_, p1_ = q.reversal_parity(inner_l.iter)
+            ff = (o_, i_, st.target.id, p0_, p1_)
+            par_alloc = 0
+    if ff is None:
+        ctx.undecided(ic.short, f"input qubits are allocated from `{src}` = `{norm(cur)[:80]}`, which is not a flattening of the arguments' bit vectors")
+    else:
+        outer, inner, a, p0, p1 = ff
+        if norm(outer) != "args":
+            ctx.undecided(ic.short, f"input qubits come from a flattening of `{norm(outer)}`, not of the argument list")
+        elif norm(inner) != f"{a}.bitvec":
+            ctx.undecided(ic.short, f"input qubits come from `{norm(inner)}` of every argument, not from its bit vector")
+        else:
+            ctx.check(p0 == 0 and p1 == 0 and par_alloc == 0, "MP-inputs-first", ic, "one qubit per argument bit, in argument then bit order", "[arg_b for arg in args for arg_b in arg.bitvec]", f"input qubits are allocated from `{src}` = `{norm(cur)[:80]}`: reversed argument or bit order", st)
+    isym = defs.get("self.input_symbols", [])
     earlier = [c for s in body[:alloc] for c in q.calls(s) if (dotted(c.func) or "").startswith("qc.") or (dotted(c.func) or "").startswith("self.compile")]
     ctx.check(not earlier, "MP-inputs-first", ic, "nothing is allocated or emitted before the inputs", "", f"calls before the input allocation: {[norm(c) for c in earlier]}: inputs would not be qubits 0..n-1", st)
     rc = repo.func("compiler.recompiler.ReCompiler.compile")
